@@ -360,7 +360,9 @@ def run(ck, ix, tier):
         cs = cls_calls(fn_)
         ck.floor("G-PROV", len(cs), 1, f"cls(...) construction in {fn_.name}")
         args = [ctor_arg(c, pos, field) for c in cs]
-        return all(a is not None and derives_from(fn_, a, *calls) for a in args)
+        # a construction that passes an empty literal for the field (guard clause for "nothing given") has nothing to read
+        empty = lambda a: norm(a) in ("{}", "()", "[]", "None", "dict()", "tuple()")
+        return all(a is not None and (derives_from(fn_, a, *calls) or empty(a)) for a in args) and any(a is not None and derives_from(fn_, a, *calls) for a in args)
 
     def field_via(fn_, pos, field, *methods):
         """... by config.<method>(...) (and by no other object's method of that name)"""
@@ -368,22 +370,25 @@ def run(ck, ix, tier):
         return field_from(fn_, pos, field, *methods) and all(isinstance(c.func, ast.Attribute) and norm(c.func.value) == "config" for c in named)
 
     def number_dict(fn_, key_pat):
-        """a mapping `{<key_pat of K>: config.to_number(V) for K, V in ...}` (comprehension, or `d[<key_pat of K>] = config.to_number(V)` in a loop over pairs K, V)"""
+        """a mapping entry `<key_pat of K>: config.to_number(V)` - in a dict comprehension or as `d[<key_pat of K>] =
+        config.to_number(V)` - where K and V are the two names of one pair: bound together by a loop / comprehension
+        target or by a tuple assignment (`K, V = part.split(':')`)"""
+        pairs = set()
+        for x in ast.walk(fn_.node):
+            tgts = [x.target] if isinstance(x, (ast.For, ast.comprehension)) else (x.targets if isinstance(x, ast.Assign) else [])
+            for tg in tgts:
+                if isinstance(tg, (ast.Tuple, ast.List)) and len(tg.elts) == 2 and all(isinstance(y, ast.Name) for y in tg.elts):
+                    pairs.add((tg.elts[0].id, tg.elts[1].id))
         for d in ast.walk(fn_.node):
-            if isinstance(d, ast.DictComp) and len(d.generators) == 1:
-                tgt, key, val = d.generators[0].target, d.key, d.value
+            if isinstance(d, ast.DictComp):
+                key, val = d.key, d.value
             elif isinstance(d, ast.Assign) and len(d.targets) == 1 and isinstance(d.targets[0], ast.Subscript):
-                loop = getattr(d, "_parent", None)
-                while loop is not None and not isinstance(loop, ast.For):
-                    loop = getattr(loop, "_parent", None)
-                if loop is None:
-                    continue
-                tgt, key, val = loop.target, d.targets[0].slice, d.value
+                key, val = d.targets[0].slice, d.value
             else:
                 continue
-            if isinstance(tgt, ast.Tuple) and len(tgt.elts) == 2 and all(isinstance(x, ast.Name) for x in tgt.elts):
-                if shape.match(key_pat, key) == {"_K": tgt.elts[0].id} and shape.match("config.to_number(_V)", val) == {"_V": tgt.elts[1].id}:
-                    return True
+            bk, bv = shape.match(key_pat, key), shape.match("config.to_number(_V)", val)
+            if bk is not None and bv is not None and (bk["_K"], bv["_V"]) in pairs:
+                return True
         return False
 
     def unit_modifiers(fn_):
@@ -453,7 +458,28 @@ def run(ck, ix, tier):
         ck.check(ok, "G-EXH", f"adder|{mem.name}->{target.name}", mem.module.relpath, f"{target.name} has an adder", f"statements of class {mem.name} (definition class {target.name}) have no registered adder: define()/load raise TypeError or they are ignored")
     hd = ix.func(PR, "GenericPlainRegistry._helper_dispatch_adder")
     cfg = cfg_of(hd)
-    ck.check("inspect.getmro(definition.__class__)" in norm(hd.node) and any(isinstance(n.ast, ast.Raise) and "TypeError" in norm(n.ast) for n in cfg.nodes if n.kind == "stmt"), "G-EXH", "_helper_dispatch_adder|unknown-class-raises", hd.loc(),
+    # by role: the classes of the definition's MRO are searched for one that is in self._adders; when none is found - the
+    # search loop runs to its end (for/else), or `next(<search>, None)` gives None - only raise TypeError follows
+    mro_of_definition = lambda e: shape.rnorm(e, hd.node) in ("inspect.getmro(definition.__class__)", "inspect.getmro(type(definition))", "definition.__class__.__mro__", "type(definition).__mro__")
+    not_found = []
+    for n in cfg.nodes:
+        if n.kind == "for" and isinstance(n.stmt.target, ast.Name) and mro_of_definition(n.stmt.iter) \
+                and any(isinstance(c_, ast.Compare) and shape.rnorm(c_, hd.node) == f"{n.stmt.target.id} in self._adders" for c_ in ast.walk(n.stmt)):
+            not_found.append((n.id, "f"))
+
+    def search_gave_none(a_):
+        b = shape.match("_X is None", a_)
+        if b is None:
+            return False
+        v = shape.resolve(a_.left, hd.node)
+        if not (isinstance(v, ast.Call) and isinstance(v.func, ast.Name) and v.func.id == "next" and len(v.args) == 2 and norm(v.args[1]) == "None" and isinstance(v.args[0], ast.GeneratorExp) and len(v.args[0].generators) == 1):
+            return False
+        g = v.args[0].generators[0]
+        facts = [f_ for i in g.ifs for f_ in shape.conjuncts(i, "t")]
+        return isinstance(g.target, ast.Name) and norm(v.args[0].elt) == g.target.id and norm(g.iter) in ("inspect.getmro(definition.__class__)", "inspect.getmro(type(definition))", "definition.__class__.__mro__", "type(definition).__mro__") \
+            and len(facts) == 1 and facts[0][1] is True and shape.match(f"{g.target.id} in self._adders", facts[0][0]) is not None
+    not_found += shape.guard_edges(cfg, search_gave_none, want=True)
+    ck.check(bool(not_found) and all(edge_leads_only_to_raise(cfg, x, lab) is None for (x, lab) in not_found) and any(isinstance(n.ast, ast.Raise) and "TypeError" in norm(n.ast) for n in cfg.nodes if n.kind == "stmt"), "G-EXH", "_helper_dispatch_adder|unknown-class-raises", hd.loc(),
              "dispatch along the MRO; unknown classes raise TypeError", "_helper_dispatch_adder no longer raises for a definition class without adder")
     for q in ("GenericPlainRegistry.define", "GenericPlainRegistry.load_definitions"):
         fn = ix.func(PR, q)
@@ -575,8 +601,13 @@ def run(ck, ix, tier):
     srcx = norm(fnx)
     is_base = lambda a_: isinstance(a_, ast.Attribute) and a_.attr == "is_base"
     app = [c_ for c_ in ast.walk(fnx) if isinstance(c_, ast.Call) and norm(c_.func) == "self._base_units.append"]
+
+    def unknown_dimension(c_):
+        """`self._add_dimension(DimensionDefinition(D))` runs only where `D in self._dimensions` is known to be false"""
+        d_ = norm(c_.args[0].args[0]) if c_.args[0].args else None
+        return d_ is not None and _sh10.holds_at(c_, fnx, lambda a_: _sh10.match(f"{d_} in self._dimensions", a_) is not None, False)
     addd = [c_ for c_ in ast.walk(fnx) if isinstance(c_, ast.Call) and norm(c_.func) == "self._add_dimension" and c_.args and isinstance(c_.args[0], ast.Call) and call_name(c_.args[0]) == "DimensionDefinition"]
-    ck.check(len(app) == 1 and norm(app[0].args[0]) == "definition.name" and _sh10.holds_at(app[0], fnx, is_base, True) and len(addd) >= 1 and all(_sh10.holds_at(c_, fnx, is_base, True) for c_ in addd) and "not in self._dimensions" in srcx, "G-EXH", "_add_unit|base-units-declare-their-dimensions", fn.loc(),
+    ck.check(len(app) == 1 and norm(app[0].args[0]) == "definition.name" and _sh10.holds_at(app[0], fnx, is_base, True) and len(addd) >= 1 and all(_sh10.holds_at(c_, fnx, is_base, True) and unknown_dimension(c_) for c_ in addd), "G-EXH", "_add_unit|base-units-declare-their-dimensions", fn.loc(),
              "base units are recorded and declare their dimensions", "base units no longer declare their dimensions on the fly")
     fn = ix.func(PR, "GenericPlainRegistry._helper_single_adder")
     cfgs = cfg_of(fn)
